@@ -108,6 +108,33 @@ fn scale_sets() -> Vec<(String, Vec<(String, Vec<u8>)>)> {
     v
 }
 
+/// tricky names (shared catalogue) and DENSE sweeps: every file count, body length and name length
+fn extra_sets(tier: Tier) -> Vec<(String, Vec<(String, Vec<u8>)>)> {
+    let mut v = Vec::new();
+    let tricky = vcore::sjis::tricky_strings();
+    for (i, s) in tricky.iter().enumerate() {
+        let other = &tricky[(i + 1) % tricky.len()];
+        let mut files = vec![(s.clone(), body(0, 5)), (format!("{}.bin", s), body(1, 33))];
+        if other != s && *other != format!("{}.bin", s) {
+            files.push((other.clone(), body(2, 0)));
+        }
+        v.push((format!("tricky name #{}", i), files));
+    }
+    let (counts, lens, names) = tier.pick((300usize, 200usize, 300usize), (1500, 700, 1200));
+    for n in 0..=counts {
+        v.push((format!("{} files", n), (0..n).map(|i| (format!("f{}", i), body(i % 4, (i * 7) % 5))).collect()));
+    }
+    for l in 0..=lens {
+        v.push((format!("bodies of {} and {} bytes", l, lens - l), vec![("a".to_string(), body(0, l)), ("b".to_string(), body(1, lens - l)), ("c".to_string(), body(2, 1))]));
+    }
+    for l in 0..=names {
+        let n1: String = "abcdefghij".chars().cycle().take(l).collect();
+        let n2: String = "名前ｶﾅ".chars().cycle().take(l / 2 + 1).collect();
+        v.push((format!("names of {} bytes", l), vec![(n1, body(0, 3)), (n2, body(1, 40)), ("z".to_string(), body(2, 0))]));
+    }
+    v
+}
+
 fn explore(ctx: &Ctx) -> Outcome {
     let cases = all_cases();
     let mut total = cases
@@ -152,6 +179,23 @@ fn explore(ctx: &Ctx) -> Outcome {
         }
         layers.push(json!({"family": "scale", "case": tag, "completed": true}));
     }
+    // tricky names and dense sweeps
+    {
+        let sets = extra_sets(ctx.tier);
+        let t = sets
+            .par_iter()
+            .fold(Tally::new, |mut t, (tag, files)| {
+                t.cases += 1;
+                t.nontrivial += 1;
+                if let Some((sig, summary)) = judge_files(files, &mut t, files.len() <= 3) {
+                    t.violate(format!("extra:{}", sig), format!("[{}] {}", tag, summary.chars().take(400).collect::<String>()), json!({"extra": tag, "tier": ctx.tier.name()}));
+                }
+                t
+            })
+            .reduce(Tally::new, Tally::merge);
+        layers.push(json!({"family": "tricky-name catalogue; DENSE sweeps: every file count, body length, name length from 0", "cases": sets.len(), "completed": true}));
+        total.absorb(t);
+    }
     total.sample(json!({"case": cases[cases.len() / 2]}));
     let mut o = total.into_outcome(
         "ALL ordered maps of 0..=3 files with distinct names from {\"\", a, FE9ArcTest1.bin, 日本, ﾂｱ.bin (half-width katakana pair: its Shift-JIS bytes are also valid UTF-8)} and lengths from {0,1,31,32,33,63,64,65} (position-dependent contents), plus archives of 255/256/4096/4097/5000 (65 535 thorough) files; oracles: parse(serialize(m)) == m in order, strict reference reader of the image (count, names, offsets, sizes, 32-byte alignment), and parse of all 16 conforming re-arrangements written by the reference builder (names before/after bodies, either order, gaps); non-trivial = non-empty map",
@@ -164,6 +208,10 @@ fn explore(ctx: &Ctx) -> Outcome {
 
 fn replay(_ctx: &Ctx, case: &Value) -> Vec<Violation> {
     let mut t = Tally::new();
+    if let Some(tag) = case["extra"].as_str() {
+        let tier = if case["tier"] == "thorough" { Tier::Thorough } else { Tier::Quick };
+        return extra_sets(tier).into_iter().filter(|(t2, _)| t2 == tag).filter_map(|(_, files)| judge_files(&files, &mut t, files.len() <= 3)).map(|(sig, summary)| Violation { sig: format!("extra:{}", sig), summary, case: case.clone() }).collect();
+    }
     if let Some(tag) = case["scale"].as_str() {
         return scale_sets().into_iter().filter(|(t2, _)| t2 == tag).filter_map(|(_, files)| judge_files(&files, &mut t, true)).map(|(sig, summary)| Violation { sig: format!("scale:{}", sig), summary, case: case.clone() }).collect();
     }
